@@ -27,6 +27,8 @@ type request struct {
 	ctx  context.Context
 	msg  *Message
 	opts callOptions
+	// streamDone is closed when the streaming call that issued the request has ended.
+	streamDone <-chan struct{}
 }
 
 // waitForSend returns true if the WithNoSendWaiting call option is not set.
@@ -43,6 +45,18 @@ type response struct {
 type responseRouter struct {
 	c         chan<- response
 	streaming bool
+	done      <-chan struct{} // closed when a streaming call has ended (nil otherwise)
+}
+
+// deliver hands the response over to the call. The reply channel of a non-streaming call has
+// room for one response from every node, so this never blocks; a streaming call may not have
+// started to read yet (then this waits) or may have ended (then the response is dropped).
+// It must not be called with the router lock held.
+func (r responseRouter) deliver(resp response) {
+	select {
+	case r.c <- resp:
+	case <-r.done:
+	}
 }
 
 type channel struct {
@@ -120,44 +134,51 @@ func (c *channel) newNodeStream(conn *grpc.ClientConn) error {
 
 func (c *channel) cancelPendingMsgs() {
 	c.responseMut.Lock()
-	defer c.responseMut.Unlock()
+	routers := make([]responseRouter, 0, len(c.responseRouters))
 	for msgID, router := range c.responseRouters {
-		router.c <- response{nid: c.node.ID(), err: streamDownErr}
+		routers = append(routers, router)
 		// delete the router if we are only expecting a single reply message
 		if !router.streaming {
 			delete(c.responseRouters, msgID)
 		}
 	}
+	c.responseMut.Unlock()
+	// hand over without holding the lock: the reply channel of a streaming call may be full
+	for _, router := range routers {
+		router.deliver(response{nid: c.node.ID(), err: streamDownErr})
+	}
 }
 
 func (c *channel) routeResponse(msgID uint64, resp response) {
 	c.responseMut.Lock()
-	defer c.responseMut.Unlock()
-	if router, ok := c.responseRouters[msgID]; ok {
-		router.c <- resp
-		// delete the router if we are only expecting a single reply message
-		if !router.streaming {
-			delete(c.responseRouters, msgID)
-		}
+	router, ok := c.responseRouters[msgID]
+	// delete the router if we are only expecting a single reply message
+	if ok && !router.streaming {
+		delete(c.responseRouters, msgID)
+	}
+	c.responseMut.Unlock()
+	// hand over without holding the lock: the reply channel of a streaming call may be full
+	if ok {
+		router.deliver(resp)
 	}
 }
 
 func (c *channel) enqueue(req request, responseChan chan<- response, streaming bool) {
 	if responseChan != nil {
 		c.responseMut.Lock()
-		c.responseRouters[req.msg.Metadata.MessageID] = responseRouter{responseChan, streaming}
+		c.responseRouters[req.msg.Metadata.MessageID] = responseRouter{c: responseChan, streaming: streaming, done: req.streamDone}
 		c.responseMut.Unlock()
 	}
 	// respond with error if the node is closed
 	if c.parentCtx.Err() != nil {
-		c.routeResponse(req.msg.Metadata.MessageID, response{nid: c.node.ID(), err: errChannelClosed})
+		c.respondClosed(req)
 		return
 	}
 	// either enqueue the request on the sendQ or respond
 	// with error if the node is closed
 	select {
 	case <-c.parentCtx.Done():
-		c.routeResponse(req.msg.Metadata.MessageID, response{nid: c.node.ID(), err: errChannelClosed})
+		c.respondClosed(req)
 		return
 	case <-req.ctx.Done():
 		// the caller's context ended while waiting for the sender to accept the request,
@@ -173,6 +194,29 @@ func (c *channel) enqueue(req request, responseChan chan<- response, streaming b
 		if c.parentCtx.Err() != nil {
 			c.failQueued()
 		}
+	}
+}
+
+// respondClosed answers a request that cannot be queued because the node is closed.
+// It is called by the goroutine that issues the call, which has not started to read the
+// reply channel yet; the replies of a server stream may already have filled that channel,
+// so the hand-over must not block here.
+func (c *channel) respondClosed(req request) {
+	msgID := req.msg.Metadata.MessageID
+	c.responseMut.Lock()
+	router, ok := c.responseRouters[msgID]
+	delete(c.responseRouters, msgID)
+	c.responseMut.Unlock()
+	if !ok {
+		// no reply is expected, or somebody else has answered the request already
+		return
+	}
+	resp := response{nid: c.node.ID(), err: errChannelClosed}
+	select {
+	case router.c <- resp:
+	default:
+		// only possible for a streaming call whose replies have filled the channel
+		go router.deliver(resp)
 	}
 }
 
